@@ -120,6 +120,11 @@ pub fn gen_program_x(rng: &mut Rng, nvars: usize, nops: usize, allow_newvar: boo
     for _ in 0..nlits {
         ops.push(Op::Var(rng.below(cur_vars as u64) as usize, rng.chance(3, 4)));
     }
+    // constants in the pool (one program in three) so that they occur as operands
+    if rng.chance(1, 3) {
+        ops.push(Op::Const(true));
+        ops.push(Op::Const(false));
+    }
     while ops.len() < nops {
         let len = ops.len();
         let i = pick_idx(rng, len);
@@ -142,7 +147,43 @@ pub fn gen_program_x(rng: &mut Rng, nvars: usize, nops: usize, allow_newvar: boo
             39..=50 => Op::Or(i, j),
             51..=57 => Op::Xor(i, j),
             58..=64 => Op::Iff(i, j),
-            65..=76 => Op::Ite(i, j, k),
+            65..=76 => {
+                // one if-then-else in four exercises a standard-triple arm: a constant or a
+                // complemented copy of another operand in second or third position, followed by
+                // the application with the two diagram operands exchanged
+                if rng.chance(1, 4) && ops.len() + 4 < nops + 4 {
+                    let c = ops.len();
+                    match rng.below(5) {
+                        0 => {
+                            ops.push(Op::Const(true));
+                            ops.push(Op::Ite(i, j, c));
+                            Op::Ite(j, i, c)
+                        }
+                        1 => {
+                            ops.push(Op::Const(false));
+                            ops.push(Op::Ite(i, j, c));
+                            Op::Ite(j, i, c)
+                        }
+                        2 => {
+                            ops.push(Op::Const(true));
+                            ops.push(Op::Ite(i, c, j));
+                            Op::Ite(j, c, i)
+                        }
+                        3 => {
+                            ops.push(Op::Const(false));
+                            ops.push(Op::Ite(i, c, j));
+                            Op::Ite(j, c, i)
+                        }
+                        _ => {
+                            ops.push(Op::Neg(j));
+                            ops.push(Op::Ite(i, j, c));
+                            Op::Ite(j, i, c)
+                        }
+                    }
+                } else {
+                    Op::Ite(i, j, k)
+                }
+            }
             77..=82 => Op::Cond(i, x, rng.coin()),
             83..=85 if basic => Op::And(i, j),
             96..=99 if basic => Op::Or(i, j),
@@ -167,7 +208,27 @@ pub fn gen_program_x(rng: &mut Rng, nvars: usize, nops: usize, allow_newvar: boo
                 Op::OrL((0..n).map(|_| pick_idx(rng, len)).collect())
             }
         };
+        // twin operations: the same operands in another role, so that cache keys of related
+        // applications meet in one builder
+        let twin = if rng.chance(1, 4) {
+            match &op {
+                Op::Ite(a, b, c) => match rng.below(3) {
+                    0 => Some(Op::Ite(*b, *a, *c)),
+                    1 => Some(Op::Ite(*a, *c, *b)),
+                    _ => Some(Op::Ite(*c, *b, *a)),
+                },
+                Op::And(a, b) => Some(Op::And(*b, *a)),
+                Op::Or(a, b) => Some(Op::Or(*b, *a)),
+                Op::Iff(a, b) => Some(Op::Xor(*a, *b)),
+                _ => None,
+            }
+        } else {
+            None
+        };
         ops.push(op);
+        if let Some(t) = twin {
+            ops.push(t);
+        }
     }
     Program { nvars, order, ops }
 }
